@@ -16,7 +16,15 @@
 //	   (CS) shapes with the full fee lattice base x rate x delta x inbound fee on
 //	   every forwarding node
 //	H  route hints (private last-hop channels, HH) and blinded tails with 1..3
-//	   blinded hops (HB)
+//	   blinded hops (HB); invoice route hints - single, chained 2- and 3-hop, sets
+//	   of several, parallel to public channels - converted by lnd's own
+//	   RouteHintsToEdges (HR; HRq = its cheap quick pre-pass) and blinded payment
+//	   path sets of two paths (HS); see NOTES.md
+//
+// Entry points: every query runs through NewRouteRequest + findPath + newRoute (what
+// ChannelRouter.FindRoute does); base cases with self == source additionally run
+// through a real payment session (newPaymentSession + RequestRoute, probe "entry");
+// space HR runs its whole family through both.
 //	T  topology: every multigraph with <= K channels on the nodes {S,A,B,T}
 //	   (parallel channels included) x a channel-profile palette per channel x
 //	   amounts x target in {T, S (self-payment)}; thorough also with the local node
@@ -363,6 +371,9 @@ func (w *c19Worker) report(c *c19Case, res c19Result, problems []c19Viol) {
 	if cn := c.cfgName(); cn != "default" {
 		sig += ":cfg=" + cn
 	}
+	if len(c.RouteHints) > 0 {
+		sig += ":" + c.hintShape()
+	}
 	for _, f := range w.st.Found {
 		if f.Sig == sig {
 			return
@@ -372,6 +383,15 @@ func (w *c19Worker) report(c *c19Case, res c19Result, problems []c19Viol) {
 		w.st.Found = append(w.st.Found, c19Found{Sig: sig, Case: c, What: fmt.Sprintf("%s; reproduced %d/%d re-runs; route=%s; all violated clauses: %s",
 			first.What, again, runs, mustJSON(rs), strings.Join(all, " || "))})
 	}
+}
+
+// hintShape: number of hop hints of every route hint of the case, e.g. "hints=2+1".
+func (c *c19Case) hintShape() string {
+	var l []string
+	for _, rh := range c.RouteHints {
+		l = append(l, strconv.Itoa(len(rh)))
+	}
+	return "hints=" + strings.Join(l, "+")
 }
 
 func mustJSON(v any) string {
@@ -459,6 +479,14 @@ func (w *c19Worker) family(base *c19Case, full bool) {
 		d := base.clone()
 		d.MinProb0, d.AttemptCost0 = cf[0], cf[1]
 		d.Probe = "cfg"
+		w.eval(d)
+	}
+	// The entry point is a dimension of every base case it is defined for: the
+	// same query through a real payment session (newPaymentSession + RequestRoute).
+	if base.Entry == "" && base.Self == base.Source && len(base.Hints) == 0 && len(base.RouteHints) == 0 {
+		d := base.clone()
+		d.Entry = "session"
+		d.Probe = "entry"
 		w.eval(d)
 	}
 	if r0.Route == nil || v0 == nil || !full {
@@ -587,6 +615,17 @@ func (w *c19Worker) family(base *c19Case, full bool) {
 			}
 		}
 		d.Hints = hints
+		// an invoice route hint stays (whole) if the route used one of its channels
+		var rhs [][]c19HopHint
+		for _, rh := range d.RouteHints {
+			for _, hh := range rh {
+				if used[hh.ID] {
+					rhs = append(rhs, rh)
+					break
+				}
+			}
+		}
+		d.RouteHints = rhs
 	}
 	for _, cf := range [][2]bool{{false, false}, {true, false}, {true, true}} {
 		cf := cf
@@ -629,14 +668,27 @@ func (w *c19Worker) family(base *c19Case, full bool) {
 		derive("only-outchan"+sfx+":"+strconv.FormatUint(other, 10), func(d *c19Case) { set(d); d.OutChans = []uint64{other} })
 	}
 
-	// -- boundaries around the amounts of the returned route
+	// -- boundaries around the amounts of the returned route (the quick tier
+	// leaves them out in the route-hint space: hop hints carry no amount range and
+	// the public hops in front of them are the same few channels as in space HH)
+	if len(base.RouteHints) > 0 && !w.run.Thorough() {
+		return
+	}
 	for j := range v0.amts {
 		j := j
 		a := v0.amts[j]
 		from, to, id := v0.from[j], v0.to[j], v0.chanIDs[j]
 		if base.chanByID(id) == nil {
-			// route hint: only a minimum exists
+			// ready-made hint: only a minimum exists (an invoice hop hint has
+			// no amount range at all)
+			readyMade := false
+			for _, h := range base.Hints {
+				readyMade = readyMade || h.ID == id
+			}
 			for _, m := range []uint64{a, a + 1} {
+				if !readyMade {
+					break
+				}
 				m := m
 				derive(fmt.Sprintf("min:hint%d:%d", j, m), func(d *c19Case) {
 					for i := range d.Hints {
@@ -992,6 +1044,233 @@ func genHints(thorough bool, amts []uint64, emit func(*c19Case)) {
 }
 
 // ---------------------------------------------------------------------------
+// space HS: blinded payment path SETS of two paths (the offer / invoice lists
+// several blinded paths; lnd merges them into one edge map behind a common
+// pseudo-target). Every ordered pair (intro1, hops1) x (intro2, hops2) with intro
+// in {A, B, T} and 1..3 hops; the first path has fixed middle-of-the-road terms,
+// the second is cheaper or dearer and either usable, unusable because its
+// htlc_minimum is above the amount, or unusable because its htlc_maximum is below
+// it; both orders of the two paths; different cipher-text lengths. The route must
+// be payable over one path of the set (c19Validate). Quick tier: base query +
+// path-finding configurations + both entry points; thorough: the full family.
+
+func genBlindedSets(thorough bool, amts []uint64, emit func(*c19Case)) {
+	const cap = int64(10_000_000)
+	std := pp(1000, 1000, 40).withMin(1)
+	free := pp(0, 0, 1)
+	graph := func() []c19Chan {
+		return []c19Chan{
+			{ID: 101, U: nS, V: nA, Cap: cap, UV: std.cp(), VU: std.withIn(-500, -1000)},
+			{ID: 102, U: nS, V: nB, Cap: cap, UV: free.cp(), VU: free.cp()},
+			{ID: 103, U: nA, V: nB, Cap: cap, UV: std.cp(), VU: std.cp()},
+			{ID: 104, U: nB, V: nT, Cap: cap, UV: pp(5000, 0, 144), VU: std.cp()},
+		}
+	}
+	if !thorough {
+		amts = amts[len(amts)-1:]
+	}
+	for _, amt := range amts {
+		type terms struct {
+			b, r     uint32
+			d        uint16
+			min, max uint64
+		}
+		var second []terms
+		for _, t := range []terms{{b: 0, r: 0, d: 1}, {b: 1000, r: 500_000, d: 144}} {
+			for _, mm := range [][2]uint64{{0, 10 * amt}, {amt + 1, 10 * amt}, {0, amt - 1}} {
+				t.min, t.max = mm[0], mm[1]
+				second = append(second, t)
+			}
+		}
+		for _, i1 := range []int{nA, nB, nT} {
+			for h1 := 1; h1 <= 3; h1++ {
+				for _, i2 := range []int{nA, nB, nT} {
+					for h2 := 1; h2 <= 3; h2++ {
+						for _, t := range second {
+							p1 := c19Blind{Intro: i1, Hops: h1, Base: 1000, Rate: 1000, Delta: 40, Max: 10 * amt, CipherLen: 20}
+							p2 := c19Blind{Intro: i2, Hops: h2, Base: t.b, Rate: t.r, Delta: t.d, Min: t.min, Max: t.max, CipherLen: 120,
+								KeyBase: c19BlindBase + 4}
+							for _, swap := range []bool{false, true} {
+								a, b := p1, p2
+								if swap {
+									a, b = p2, p1
+								}
+								emit(&c19Case{Space: "HS", Nodes: 4, Self: nS, Source: nS, Target: a.Intro, Amt: amt,
+									Chans: graph(), Blind: &a, BlindMore: []c19Blind{b}, lite: !thorough})
+							}
+						}
+					}
+				}
+			}
+		}
+	}
+}
+
+// ---------------------------------------------------------------------------
+// space HR: invoice route hints, converted by lnd's own RouteHintsToEdges
+//
+// Nodes: S (local, payer), A, B (public), T (payee), H1, H2 (private nodes that
+// exist in no graph). Public graph: S-A, S-B, A-B and optionally B-T. A route hint
+// is a chain of 1..3 hop hints given by the nodes the hinted channels leave from;
+// it always ends at T. The chain alphabet holds every start in {A, B} with private
+// interior nodes, chains whose interior is a public node (the hinted channel then
+// runs parallel to a public channel or between public nodes), and a chain that
+// starts at the payer itself. Every hint *set* of 1 chain and every ORDERED pair of
+// chains (including a chain paired with itself = parallel private channels, and
+// pairs that share an interior node so that one private node owns two hinted
+// channels) is enumerated (quick tier: pairs for the larger amount only); thorough
+// adds the empty route hint and unordered triples. Channel ids are distinct over the whole set and distinct from public
+// ids. Policies: single chains take the full cross product of the hop palette;
+// larger sets take three assignments: uniform, strictly ascending and strictly
+// descending along the set (all hops pairwise different, so that a hop judged with
+// another hop's parameters or endpoint shows whichever direction is cheaper).
+
+const (
+	nH1 = 4
+	nH2 = 5
+)
+
+var c19Chains = [][]int{
+	{nA}, {nB},
+	{nA, nH1}, {nB, nH1}, {nA, nB}, {nS, nH1},
+	{nA, nH1, nH2}, {nB, nH1, nH2}, {nA, nB, nH1}, {nA, nH1, nB},
+}
+
+type hopPol struct {
+	b, r uint32
+	d    uint16
+}
+
+var c19HopPalette = []hopPol{{0, 0, 1}, {1000, 1000, 40}, {1, 500_000, 144}}
+
+// distinctHopPol: the n-th of a family of pairwise different hop policies.
+func distinctHopPol(n int) hopPol {
+	return hopPol{b: uint32(1000 * (n + 1)), r: uint32(100_000 * (n % 4)), d: uint16(10*n + 3)}
+}
+
+func genRouteHints(thorough, prePass bool, amts []uint64, emit func(*c19Case)) {
+	const cap = int64(10_000_000)
+	std := pp(1000, 1000, 40).withMin(1)
+	free := pp(0, 0, 1)
+	graph := func(publicT bool) []c19Chan {
+		chans := []c19Chan{
+			{ID: 101, U: nS, V: nA, Cap: cap, UV: std.cp(), VU: std.withIn(-500, -1000)},
+			{ID: 102, U: nS, V: nB, Cap: cap, UV: free.cp(), VU: free.cp()},
+			{ID: 103, U: nA, V: nB, Cap: cap, UV: std.cp(), VU: std.cp()},
+		}
+		if publicT {
+			chans = append(chans, c19Chan{ID: 104, U: nB, V: nT, Cap: cap, UV: pp(5000, 0, 144), VU: std.cp()})
+		}
+		return chans
+	}
+	chains := c19Chains
+	if thorough {
+		chains = append(append([][]int{}, c19Chains...), []int{}) // the empty route hint
+	}
+	// build materialises a hint set; pol(n) is the policy of the n-th hop hint.
+	build := func(set [][]int, pol func(n int) hopPol) [][]c19HopHint {
+		var out [][]c19HopHint
+		n := 0
+		for _, ch := range set {
+			rh := []c19HopHint{}
+			for _, node := range ch {
+				p := pol(n)
+				rh = append(rh, c19HopHint{Node: node, ID: uint64(201 + n), Base: p.b, Rate: p.r, Delta: p.d})
+				n++
+			}
+			out = append(out, rh)
+		}
+		return out
+	}
+	hops := func(set [][]int) (n int) {
+		for _, ch := range set {
+			n += len(ch)
+		}
+		return n
+	}
+	put := func(amt uint64, set [][]int, pol func(n int) hopPol) {
+		for _, pub := range []bool{false, true} {
+			for _, entry := range []string{"", "session"} {
+				space := "HR"
+				if prePass {
+					space = "HRq"
+				}
+				emit(&c19Case{Space: space, Nodes: 6, Self: nS, Source: nS, Target: nT, Amt: amt, Chans: graph(pub),
+					RouteHints: build(set, pol), Entry: entry, lite: prePass})
+			}
+		}
+	}
+	assignments := func(set [][]int) []func(int) hopPol {
+		total := hops(set)
+		return []func(int) hopPol{
+			func(int) hopPol { return c19HopPalette[1] },
+			distinctHopPol,
+			func(n int) hopPol { return distinctHopPol(total - 1 - n) },
+		}
+	}
+	for ai, amt := range amts {
+		// one chain: full palette cross product
+		for _, ch := range chains {
+			k := len(ch)
+			if k == 0 {
+				continue
+			}
+			idx := make([]int, k)
+			for {
+				sel := append([]int(nil), idx...)
+				put(amt, [][]int{ch}, func(n int) hopPol { return c19HopPalette[sel[n]] })
+				i := 0
+				for ; i < k; i++ {
+					if idx[i]++; idx[i] < len(c19HopPalette) {
+						break
+					}
+					idx[i] = 0
+				}
+				if i == k {
+					break
+				}
+			}
+		}
+		// ordered pairs (quick tier: for the last amount only)
+		if !thorough && ai != len(amts)-1 {
+			continue
+		}
+		for _, c1 := range chains {
+			for _, c2 := range chains {
+				set := [][]int{c1, c2}
+				if hops(set) == 0 {
+					continue
+				}
+				as := assignments(set)
+				if !thorough {
+					as = as[1:] // uniform policies: single chains and thorough only
+				}
+				for _, pol := range as {
+					put(amt, set, pol)
+				}
+			}
+		}
+		if !thorough || ai != len(amts)-1 {
+			continue
+		}
+		// unordered triples (for the last amount)
+		for i := range chains {
+			for j := i; j < len(chains); j++ {
+				for l := j; l < len(chains); l++ {
+					set := [][]int{chains[i], chains[j], chains[l]}
+					if hops(set) == 0 {
+						continue
+					}
+					for _, pol := range assignments(set)[1:] {
+						put(amt, set, pol)
+					}
+				}
+			}
+		}
+	}
+}
+
+// ---------------------------------------------------------------------------
 // space P: onion size
 
 func genPayload(thorough bool, emit func(*c19Case)) {
@@ -1062,6 +1341,10 @@ func (w *c19Worker) sweepFamily(base *c19Case) {
 		d.Probe = "metadata:" + strconv.Itoa(l)
 		d.MetaLen = l
 		w.eval(d)
+		// the same boundary through a real payment session
+		e := d.clone()
+		e.Entry = "session"
+		w.eval(e)
 	}
 }
 
@@ -1159,8 +1442,21 @@ func c19Generate(cfg tierCfg, thorough bool, emit0 func(*c19Case)) {
 	// cheap, boundary-dense spaces first: if the internal deadline stops the
 	// run early, what was skipped is the tail of the largest topology space.
 	genPayload(thorough, emit)
+	if !thorough {
+		// Quick tier: the hint-conversion spaces first in their cheap form (base
+		// query + configurations + entry points; space HRq = the HR base cases
+		// without their derived families), so that a loaded machine that reaches
+		// the internal deadline inside the big lattice below has still queried
+		// every hint set once. The full HR families follow at their place.
+		genRouteHints(thorough, true, cfg.amts, emit)
+		genBlindedSets(thorough, cfg.amts, emit)
+	}
 	genChain(cfg.lattice, cfg.amts, cfg.c3Amts, emit)
 	genHints(thorough, cfg.amts, emit)
+	genRouteHints(thorough, false, cfg.amts, emit)
+	if thorough {
+		genBlindedSets(thorough, cfg.amts, emit)
+	}
 	for _, tp := range cfg.topo {
 		amts := tp.amts
 		if amts == nil {
@@ -1200,13 +1496,17 @@ func c19Shard(t *testing.T, run *evid.Run, cfg tierCfg, sh string) {
 	start := time.Now()
 	w := &c19Worker{run: run, link: newC19Link(t), st: newC19Stats()}
 	i := 0
+	only := os.Getenv("VERIF_C19_SPACES") // debugging aid: comma-separated space names; the run is then not exhaustive
 	c19Generate(cfg, run.Thorough(), func(c *c19Case) {
+		if only != "" && !strings.Contains(","+only+",", ","+c.Space+",") {
+			return
+		}
 		i++
 		w.st.Generated++
 		if (i+run.Seed())%n != idx || w.st.Stopped {
 			return
 		}
-		w.family(c, true)
+		w.family(c, !c.lite)
 		if time.Now().After(deadline) {
 			w.st.Stopped = true
 		}
@@ -1287,6 +1587,10 @@ func c19Parent(t *testing.T, run *evid.Run, cfg tierCfg) {
 		exhaustive = false
 		capsHit = append(capsHit, fmt.Sprintf("internal deadline %s reached: enumeration stopped early", cfg.deadline))
 	}
+	if f := os.Getenv("VERIF_C19_SPACES"); f != "" {
+		exhaustive = false
+		capsHit = append(capsHit, "debugging filter VERIF_C19_SPACES="+f+": other spaces skipped")
+	}
 	if len(total.Unreproduced) > 0 {
 		exhaustive = false
 		capsHit = append(capsHit, "an oracle alarm did not reproduce on re-runs (route choice among ties is map-order dependent); see unreproduced_alarms")
@@ -1324,6 +1628,9 @@ func c19Parent(t *testing.T, run *evid.Run, cfg tierCfg) {
 		"the per-hop channel is the one named in the route (hop.ChannelID); non-strict forwarding by the peer is outside the property",
 		"blinded tails are judged against the aggregate fee / CLTV / htlc range stated by the recipient; the real-link cross-check covers clear-text forwarding nodes only; link config OutgoingCltvRejectDelta=0, MaxOutgoingCltvExpiry=2^20 (expiry-too-soon/far are not pathfinding constraints of the statement)",
 		"soundness only: optimality / completeness of pathfinding is not judged (reported as brute_force_comparison)",
+		"invoice route hints (space HR) are judged against the BOLT 11 reading: the hop hints of one route hint are chained in forward order, the last leads to the payee; a hinted hop has the stated fee and delta and no amount range; hinted channel ids are distinct from each other and from public channel ids (a hint that re-states a public channel with other terms is not enumerated); nodes H1, H2 exist only in hints",
+		"session entry: LightningPayment built as for an invoice payment (MaxParts 1, no MPP features, so RequestRoute never splits); its CltvLimit bounds TotalTimeLock - height; mission control replaced by the same constant probability source",
+		"a payment to a set of blinded paths (space HS) is payable iff the route is payable over one path of the set",
 	)
 	cov := map[string]any{
 		"evaluations":                   total.Queries,
